@@ -15,9 +15,10 @@ PROPERTY = "C18"
 RULE = ("documents: hand-made small documents for every syntactic feature (edits exhaustive over ALL entered node positions), "
         "the repo fixtures, seeded generated executable / type-system / mixed documents (edits on sampled positions); "
         "per document: identity, delete / skip / replace / replace-by-other / in-place mutation at a position, multi-edit scripts, "
-        "chains of 1..3 (plain and Dispatching) members, sub-tree roots, wrong-kind replacements. "
+        "chains of 1..3 (plain and Dispatching) members configured through the constructor or by assigning / extending / re-ordering `visitors` afterwards (also from a subclass), sub-tree roots, wrong-kind replacements. "
         "non-trivial = distinct (document, visitor script) whose visit enters >= 3 nodes")
 ASSUMPTIONS = [
+    "the model's `chained vs` is a function of the LIVE `visitors` list at the time of each call (what the documented attribute says); chains are therefore also configured by assigning / extending / re-ordering `visitors` after construction and from subclasses",
     "trees are alias-free (no object occurs twice), as produced by the parser; replacement nodes are fresh objects",
     "enter only changes the node it is given (or returns a fresh one); a visitor that deletes or skips does not also mutate; leave does not mutate",
     "exceptions other than SkipNode raised by a visitor abort the visit (modelled as an error outcome, traces not compared)",
@@ -202,7 +203,7 @@ def run_real(text, kw, case):
     g = to_generic(root, ids)
     log = []
     members = [make_scripted(m["tag"], m["dispatching"], {int(k): v for k, v in m["script"]}, ids, log) for m in case["visitors"]]
-    vis = _v.ChainedVisitor(*members) if case["chain"] else members[0]
+    vis = O.build_chain(members, case.get("config", "constructor")) if case["chain"] else members[0]
     req = {"op": "visit", "tree": g, "chain": case["chain"], "visitors": case["visitors"], "compact": True}
     try:
         res = vis.visit(root)
@@ -241,7 +242,8 @@ def gen_cases(rng, text, kw, exhaustive, n_sample):
     plain = lambda script, tag=0, disp=False: {"tag": tag, "dispatching": disp, "script": [[i, a] for i, a in script.items()]}  # noqa: E731
     cases = [{"chain": False, "visitors": [plain({})]}, {"chain": False, "visitors": [plain({}, disp=True)]}]
     for k in (1, 2, 3):
-        cases.append({"chain": True, "visitors": [plain({}, tag=t, disp=(t % 2 == 1)) for t in range(k)]})
+        cases.append({"chain": True, "visitors": [plain({}, tag=t, disp=(t % 2 == 1)) for t in range(k)],
+                      "config": O.CHAIN_CONFIGS[(k * 2 + len(ent)) % len(O.CHAIN_CONFIGS)]})
 
     def action(i, what):
         x = by_id[i]
@@ -297,7 +299,7 @@ def gen_cases(rng, text, kw, exhaustive, n_sample):
                 if a:
                     script[i] = a
             members.append(plain(script, tag=t, disp=rng.random() < 0.4))
-        cases.append({"chain": True, "visitors": members, "what": "chain-edit"})
+        cases.append({"chain": True, "visitors": members, "what": "chain-edit", "config": rng.choice(O.CHAIN_CONFIGS)})
     for _ in range(2):
         i = rng.choice(ent)
         if paths.get(i):
@@ -389,7 +391,7 @@ class Collector:
             if self.match(PROPERTY, sig, self.known) is not None:
                 self._emit(sig, what, detail, n)
             else:
-                fam.setdefault(sig.split(":")[0], []).append((sig, what, detail, n))
+                fam.setdefault(":".join(sig.split(":")[:2]) if sig.startswith("chain:") else sig.split(":")[0], []).append((sig, what, detail, n))
         for f, lst in fam.items():
             if len(lst) >= COLLAPSE_AT:
                 sig, what, detail, _ = min(lst, key=lambda x: len(x[2].get("text", "")))
@@ -498,6 +500,8 @@ def direct_oracle(ctx, text, kw, fail, exhaustive, big=False):
     cp = list(range(n)) if (exhaustive and n <= 12) else sorted(ctx.rng.sample(range(n), min(n, 3)))
     for k in ((1, 2, 3) if exhaustive else (ctx.rng.choice([1, 2, 3]),)):
         O.check_chain(ctx, text, kw, fail, k, cp, dispatching=ctx.rng.random() < 0.5)
+    for config in (O.CHAIN_CONFIGS[1:] if exhaustive else (ctx.rng.choice(O.CHAIN_CONFIGS[1:]),)):
+        O.check_chain_configured(ctx, text, kw, fail, ctx.rng.choice([2, 3]), config, dispatching=ctx.rng.random() < 0.3)
     O.check_dispatching(ctx, text, kw, fail)
     if exhaustive or ctx.rng.random() < 0.3:
         O.check_subroots(ctx, text, kw, fail)
@@ -574,6 +578,8 @@ def replay(ctx, data):
             O.check_dispatching(ctx, text, kw, fail)
         if "edit" in inp and "chain" not in inp:
             O.check_edits(ctx, text, kw, fail, positions=[inp["pos"]])
+        elif "config" in inp:
+            O.check_chain_configured(ctx, text, kw, fail, inp["chain"], inp["config"])
         elif "chain" in inp:
             O.check_chain(ctx, text, kw, fail, inp["chain"], [inp["pos"]] if "pos" in inp else [])
         if "transform" in inp:
